@@ -71,6 +71,20 @@ def qasm_gates() -> list[tuple[str, Any]]:
     blk.append_gate(G.CNOTGate(), (1, 0))
     blk.append_gate(G.RZGate(), 0, [0.37])
     out.append(('CircuitGate(H;CX;RZ)', G.CircuitGate(blk)))
+    # a parameterised block inside a block, followed by more parameterised
+    # operations of the parent (each formal parameter its own name)
+    inner = Circuit(2)
+    inner.append_gate(G.RXGate(), 0, [0.11])
+    inner.append_gate(G.CNOTGate(), (0, 1))
+    inner.append_gate(G.RZGate(), 1, [0.22])
+    outer = Circuit(2)
+    outer.append_gate(G.RYGate(), 1, [0.33])
+    outer.append_gate(G.CircuitGate(inner), (1, 0), [0.44, 0.55])
+    outer.append_gate(G.U3Gate(), 0, [0.66, 0.77, 0.88])
+    outer.append_gate(G.CircuitGate(inner), (0, 1), [0.99, 1.1])
+    outer.append_gate(G.RZGate(), 1, [1.21])
+    out.append(('CircuitGate(RY;[RX;CX;RZ];U3;[RX;CX;RZ];RZ)',
+                G.CircuitGate(outer)))
     return out
 
 
